@@ -53,10 +53,10 @@ ANCHORS = [
 
 def floors(tier):
     return {
-        "comparisons": {"cov=2Hinv": 60, "errors=sqrt-diag": 60, "cor=normalised": 60, "profile-point": 150, "asymmetric-rise": 40, "contour-point-rise": 40, "error-band": 60, "adapter.cov=2*errordef*Hinv": 16},
+        "comparisons": {"cov=2Hinv": 60, "errors=sqrt-diag": 60, "cor=normalised": 60, "profile-point": 150, "asymmetric-rise": 40, "contour-point-rise": 40, "error-band": 60, "adapter.cov=2*errordef*Hinv": 8, "cov=2Hinv.after-fix": 15, "errors=sqrt-diag.after-fix": 15},
         "ops": ["do_fit", "profile", "asymmetric", "contour", "error_band"],
         "reach": ["%s:%s" % a for a in ANCHORS],
-        "strata": ["iminuit", "scipy", "fixed", "xy", "hist", "int-x-band", "outside-range-band", "errordef-0.5", "errordef-1.0"],
+        "strata": ["iminuit", "scipy", "fixed", "xy", "hist", "int-x-band", "outside-range-band", "errordef-0.5", "errordef-1.0", "limited-inactive"],
         "distinct_nontrivial": 40,
     }
 
@@ -64,8 +64,8 @@ def floors(tier):
 # ------------------------------------------------------------------ generation
 def gen_case(rng, tier, idx, shard, nshards):
     gi = idx * nshards + shard
-    if gi % 12 == 11:
-        return {"property": "C07", "kind": "adapter", "minimizer": ["iminuit", "scipy"][(gi // 12) % 2], "errordef": [1.0, 0.5][(gi // 24) % 2], "seed": int(rng.integers(0, 2**31)), "quartic": bool(rng.random() < 0.4), "npar": int(rng.integers(2, 5)), "fix": bool(rng.random() < 0.4)}
+    if gi % 8 == 7:
+        return {"property": "C07", "kind": "adapter", "minimizer": ["iminuit", "scipy"][(gi // 8) % 2], "errordef": [1.0, 0.5][(gi // 16) % 2], "seed": int(rng.integers(0, 2**31)), "quartic": bool(rng.random() < 0.4), "npar": int(rng.integers(2, 5)), "fix": bool(rng.random() < 0.4)}
     minimizer = ["iminuit", "scipy"][gi % 2]
     ftype = ["xy", "xy", "xy", "hist"][(gi // 2) % 4]
     setup = []
@@ -91,9 +91,17 @@ def gen_case(rng, tier, idx, shard, nshards):
         nm = m.pnames[int(rng.integers(0, len(m.pnames)))]
         fixed[nm] = float(np.round(m.defaults[m.pnames.index(nm)] * rng.uniform(0.98, 1.02), 5))
     start = {nm: float(np.round(d * rng.uniform(0.95, 1.05), 5)) for nm, d in zip(m.pnames, m.defaults) if nm not in fixed}
+    limited = {}
+    if ftype == "xy" and rng.random() < 0.3:
+        # a limit that is declared but not active (the statement excludes parameters *resting* on a limit, not limited ones)
+        cand = [nm for nm in m.pnames if nm not in fixed]
+        nm = cand[int(rng.integers(0, len(cand)))]
+        d0 = float(m.defaults[m.pnames.index(nm)])
+        w = abs(d0) * rng.uniform(0.3, 0.8) + 0.3
+        limited[nm] = [float(np.round(d0 - w, 4)), float(np.round(d0 + w * rng.uniform(0.6, 1.6), 4))]
     # which extras: profiles are cheap with iminuit, scipy asymmetric errors (~2 s) and contours (~5 s) are sampled sparsely
     extras = {"profile": True, "asymmetric": bool(minimizer == "iminuit" or gi % 6 == 1), "contour": bool((minimizer == "iminuit" and gi % 3 == 0) or gi % 24 == 5), "sigma": float(rng.choice([1.0, 2.0]))}
-    return {"property": "C07", "kind": "fit", "spec": spec, "setup": setup, "fixed": fixed, "start": start, "extras": extras, "aux_seed": int(rng.integers(0, 2**31))}
+    return {"property": "C07", "kind": "fit", "spec": spec, "setup": setup, "fixed": fixed, "limited": limited, "start": start, "extras": extras, "aux_seed": int(rng.integers(0, 2**31))}
 
 
 # ------------------------------------------------------------------ reference helpers
@@ -242,6 +250,8 @@ def run_fit_case(ctx, case):
     for nm, v in case["fixed"].items():
         fit.fix_parameter(nm, v)
         ctx.stratum("fixed")
+    for nm, (lo, hi) in (case.get("limited") or {}).items():
+        fit.limit_parameter(nm, lo, hi)
     fit.set_parameter_values(**case["start"])
     ctx.op("do_fit")
     try:
@@ -274,6 +284,12 @@ def run_fit_case(ctx, case):
     C[np.ix_(free_idx, free_idx)] = Cf
     sig = np.sqrt(np.diag(C))
     ss = np.where(sig > 0, sig, 1.0)
+    for nm, (lo, hi) in (case.get("limited") or {}).items():
+        k_ = names.index(nm)
+        if min(p_hat[k_] - lo, hi - p_hat[k_]) < 4.0 * sig[k_]:
+            ctx.discard("optimum-within-4-sigma-of-a-limit")
+            return False
+        ctx.stratum("limited-inactive")
     linear = Model.from_spec(spec["model"]).linear and not any(o[1].get("reference") == "model" or gen.norm_axis(o[1].get("axis")) == "x" for o in case["setup"]) and spec["type"] == "xy"
     nontrivial = len(free_idx) >= 2 and (not linear or bool(case["fixed"]) or np.any(np.abs(Cf - np.diag(np.diag(Cf))) > 1e-12))
     # the optimum itself must be (close to) the reference optimum, otherwise the definitions are evaluated at the wrong place
@@ -452,6 +468,54 @@ def run_fit_case(ctx, case):
             # numerical derivative of the implementation: numdifftools, accurate to ~1e-6 relative on these families
             ok = np.all(np.abs(got - exp) <= 2e-3 * np.abs(exp) + 1e-9 * (np.abs(exp).max() + 1e-300))
             ctx.check("error-band", bool(ok), lambda: dict(d, which=label, x=xs, got=got, expected=exp))
+    if sum(ctx._wit_per_key.values()) != nv:
+        return nontrivial
+    # ---- (f) a parameter is fixed where it stands (no new fit): the uncertainties are now those over the remaining free parameters
+    if len(free_idx) >= 2 and not (case.get("limited") or {}):
+        k = free_idx[int(rng.integers(0, len(free_idx)))]
+        rest = [i for i in free_idx if i != k]
+        ctx.op("fix_parameter.after-fit")
+        try:
+            fit.fix_parameter(names[k])
+            if not fit.did_fit:
+                ctx.discard("fix-after-fit-clears-did_fit")
+                return nontrivial
+            H2 = H[np.ix_([free_idx.index(i) for i in rest], [free_idx.index(i) for i in rest])]
+            C2 = np.zeros_like(C)
+            C2[np.ix_(rest, rest)] = 2.0 * np.linalg.inv(H2)
+            s2 = np.sqrt(np.diag(C2))
+            ss2 = np.where(s2 > 0, s2, 1.0)
+            cm2 = np.array(fit.parameter_cov_mat, dtype=float)
+            pe2 = np.array(fit.parameter_errors, dtype=float)
+            dev2 = np.abs(cm2 - C2) / np.outer(ss, ss)
+            d2 = dict(d, fixed_after_fit=names[k])
+            ctx.check("cov=2Hinv.after-fix", bool(np.all(dev2 <= tol)), lambda: dict(d2, got=cm2, expected=C2, max_normalised_deviation=float(dev2.max()), tolerance=tol))
+            ctx.check("errors=sqrt-diag.after-fix", bool(np.all(np.abs(pe2 - np.sqrt(np.diag(cm2))) <= 1e-3 * ss + 1e-12)), lambda: dict(d2, errors=pe2, sqrt_diag_cov=np.sqrt(np.diag(cm2))))
+            cor2 = fit.parameter_cor_mat
+            if cor2 is not None and len(rest) >= 2:
+                cor2 = np.array(cor2, dtype=float)
+                dd2 = np.where(np.diag(cm2) > 0, np.sqrt(np.abs(np.diag(cm2))), 1.0)
+                e2 = cm2 / np.outer(dd2, dd2)
+                sub2 = np.ix_(rest, rest)
+                ctx.check("cor=normalised.after-fix", bool(np.all(np.abs(cor2[sub2] - e2[sub2]) <= 1e-9)), lambda: dict(d2, got=cor2, expected=e2))
+            if spec["type"] == "xy":
+                xs = np.linspace(float(np.min(mb.ref.x)), float(np.max(mb.ref.x)), 5)
+                got = np.array(fit.error_band(xs), dtype=float)
+                J = mb.ref.model.dfdp(xs, p_hat)[rest]
+                exp = np.sqrt(np.maximum(np.einsum("in,ij,jn->n", J, cm2[np.ix_(rest, rest)], J), 0.0))
+                ctx.check("error-band.after-fix", bool(np.all(np.abs(got - exp) <= 2e-3 * np.abs(exp) + 1e-9 * (np.abs(exp).max() + 1e-300))), lambda: dict(d2, x=xs, got=got, expected=exp))
+            ctx.op("release_parameter.after-fit")
+            fit.release_parameter(names[k])
+            cm3 = np.array(fit.parameter_cov_mat, dtype=float)
+            pe3 = np.array(fit.parameter_errors, dtype=float)
+            dev3 = np.abs(cm3 - C) / np.outer(ss, ss)
+            ctx.check("cov=2Hinv.after-release", bool(np.all(dev3 <= tol)), lambda: dict(d2, got=cm3, expected=C, max_normalised_deviation=float(dev3.max()), tolerance=tol))
+            ctx.check("errors=sqrt-diag.after-release", bool(np.all(np.abs(pe3 - np.sqrt(np.diag(cm3))) <= 1e-3 * ss + 1e-12)), lambda: dict(d2, errors=pe3, sqrt_diag_cov=np.sqrt(np.diag(cm3))))
+        except Exception as e:
+            if numerical_failure(e):
+                ctx.discard("fix-after-fit-failed-numerically")
+            else:
+                ctx.violation(None, "fix-after-fit.no-exception", dict(d, traceback=fmt_exc()))
     return nontrivial
 
 
